@@ -27,6 +27,8 @@ use std::collections::BTreeSet;
 pub struct LoopSpec {
     pub index: usize,
     pub set: bool,
+    /// `for x in SET` over an owned HashSet -> `for x__ref in SET.iter() { let x = x__ref.clone(); ..` (R8b)
+    pub set_owned: bool,
     pub binder: Option<String>,
     pub text: String,
     pub body: String,
@@ -65,6 +67,8 @@ pub struct Replace {
     pub rule: String,
     pub why: String,
     pub all: bool,
+    /// applied to the source text before parsing (so that other rules still apply inside the new text)
+    pub pre: bool,
 }
 #[derive(Clone, Default, Debug)]
 pub struct FnSpec {
@@ -154,6 +158,8 @@ fn words(s: &str) -> Vec<String> {
         if in_bt {
             if c == '`' {
                 in_bt = false;
+                // `\n` inside a backtick group stands for a line break
+                cur = cur.replace("\\n", "\n");
             } else {
                 cur.push(c);
             }
@@ -329,7 +335,7 @@ pub fn parse_spec(text: &str, prelude_dir: &str) -> Result<Unit, String> {
                     "pre" => sect = Sect::Pre,
                     "loop" => {
                         let index: usize = ws.get(1).and_then(|s| s.parse().ok()).ok_or_else(|| err("loop index"))?;
-                        f.loops.push(LoopSpec { index, set: flag(&ws, "set"), binder: kv(&ws, "binder").map(|s| s.to_string()), text: String::new(), body: String::new() });
+                        f.loops.push(LoopSpec { index, set: flag(&ws, "set"), set_owned: flag(&ws, "set-owned"), binder: kv(&ws, "binder").map(|s| s.to_string()), text: String::new(), body: String::new() });
                         sect = Sect::Loop(f.loops.len() - 1);
                     }
                     "loopbody" => {
@@ -372,7 +378,7 @@ pub fn parse_spec(text: &str, prelude_dir: &str) -> Result<Unit, String> {
                         let new = ws.get(3).cloned().ok_or_else(|| err("new"))?;
                         let rule = kv(&ws, "rule").unwrap_or("ADHOC").to_string();
                         let why = kv(&ws, "why").unwrap_or("").to_string();
-                        f.replaces.push(Replace { old, new: if new == "<empty>" { String::new() } else { new }, rule, why, all: flag(&ws, "all") });
+                        f.replaces.push(Replace { old, new: if new == "<empty>" { String::new() } else { new }, rule, why, all: flag(&ws, "all"), pre: flag(&ws, "pre") });
                     }
                     "split-arms" => f.split_arms = true,
                     "attr" => f.attrs.push(d.trim_start()["attr".len()..].trim().to_string()),
